@@ -52,5 +52,17 @@ REG.contract(
              ("len.pure", "same(sigma('link'), old(sigma('link'))) and same(sigma('ord'), old(sigma('ord')))", "prop")],
     prop_clauses=["len.dict", "len.pure"])
 
-# (del section[key] / section[key] stay with the bounded battery C10/bounded/c10: the cached container is a dynamically typed
-#  field and `del` / subscript on it are outside the engine's subset)
+# (del section[key] stays with the bounded battery C10/bounded/c10: the cached container is a dynamically typed field and
+#  `del` on it is outside the executor's subset)
+
+REG.contract(
+    "nixio.section.Section.__getitem__", props=["C10"],
+    params=dict(self=Obj("Section"), key=Str), result=Dyn,
+    requires=SEC_DOMAIN + ["not key_in_group(%s, key)" % PG], modifies=SEC_MODS + ["heap._h5group@new"],
+    raises={"KeyError": ("not key_in_group(%s, key)" % SG, "prop")},
+    # a key that names no property but a child section yields that child section
+    ensures=[("get.section", "link(%s, key) != 0 implies target_obj(result) == link(%s, key)" % (SG, SG), "prop")],
+    prop_clauses=["get.section", "raises-iff:KeyError", "raises-only:KeyError"])
+
+# (the property branch of section[key] - the values of the property, a single value unwrapped - stays with the bounded battery:
+#  the member handle's class is a run-time value of the container, so `.values` on it is outside the executor's subset)
